@@ -1,0 +1,27 @@
+//go:build verif
+
+package common
+
+// Hooks installed by the deterministic-simulation harness (build tag "verif").
+var (
+	// VerifPointHook is called before a durable file operation. It may return
+	// an error (injected I/O failure) or never return (simulated process death).
+	VerifPointHook func(op, path string) error
+	// VerifExitHook is called by Exit before the process would terminate; the
+	// harness panics with a typed value so that the death of one simulated
+	// node does not end the simulation.
+	VerifExitHook func(s string)
+)
+
+func VerifPoint(op, path string) error {
+	if h := VerifPointHook; h != nil {
+		return h(op, path)
+	}
+	return nil
+}
+
+func verifExit(s string) {
+	if h := VerifExitHook; h != nil {
+		h(s)
+	}
+}
